@@ -290,6 +290,14 @@ fn run_status(ctx: &mut Ctx, rng: &mut Rng, index: u64) {
         // a successful CONNECT reply has no content: framing fields on it are ignored (RFC 9110
         // 9.3.6) and the tunnel starts right behind the blank line
         let n = head.len();
+        // a field line whose name is not a token is dropped like in any response - the head goes on
+        // behind it, up to the blank line (nothing may be written before that one has been read)
+        if index % 3 == 0 {
+            head.truncate(n - 2);
+            head.extend_from_slice(b"X Proxy Note: spaces in a name\r\nVia: 1.1 verif\r\nX-More: to come\r\n\r\n");
+            ctx.count("agreeing_replies_with_an_invalid_field_name", 1);
+        }
+        let n = head.len();
         match index % 4 {
             1 => {
                 head.truncate(n - 2);
